@@ -10,6 +10,7 @@ import hashlib
 import json
 import os
 import random
+import re
 import shutil
 import subprocess
 
@@ -93,7 +94,7 @@ def random_defs(seed, n):
             shape = rng.choice(['named', 'named', 'tuple'])
             nf = rng.randint(1, 4)
             fields = rand_fields(rng, shape, nf, generics)
-            if generics and not any(f['ty'] == 'T' for f in fields):
+            if generics and not any(re.search(r'\bT\b', f['ty']) for f in fields):
                 fields[0] = {'name': fields[0]['name'], 'ty': 'T', 'attr': None}
             if any('Vec<' in f['ty'] for f in fields) and 'MaxEncodedLen' in derives:
                 derives.remove('MaxEncodedLen')
@@ -119,7 +120,7 @@ def random_defs(seed, n):
                     used.add(eff)
                     pos += 1
                 vs.append({'name': 'V%d' % j, 'index': index, 'disc': None, 'skip': skip, 'shape': shape, 'fields': fields})
-            if generics and not any(f['ty'] == 'T' for v in vs for f in v['fields']):
+            if generics and not any(re.search(r'\bT\b', f['ty']) for v in vs for f in v['fields']):
                 generics = []
             if any('Vec<' in f['ty'] for v in vs for f in v['fields']) and 'MaxEncodedLen' in derives:
                 derives.remove('MaxEncodedLen')
